@@ -4,6 +4,7 @@ set -u
 cd /verif
 mid=$1; cids=$2; tier=${3:-quick}
 if ! git -C /repo diff --quiet; then echo "/repo has uncommitted changes"; exit 2; fi
+rm -rf /var/tmp/evidence_keep && cp -r /verif/evidence /var/tmp/evidence_keep   # runs against a changed tree must not leave their evidence behind
 if ! git -C /repo apply /verif/seeded/$mid/patch.diff 2>/tmp/apply.err; then echo "patch does not apply: $(cat /tmp/apply.err | head -2)"; exit 3; fi
 for cid in $cids; do
   out=$(./check $cid --tier $tier 2>&1); rc=$?
@@ -11,3 +12,4 @@ for cid in $cids; do
   echo "$out" | grep "^VIOLATION" | head -1
 done
 git -C /repo checkout -- . ; git -C /repo status --short | head -3
+rm -rf /verif/evidence && mv /var/tmp/evidence_keep /verif/evidence
